@@ -1,0 +1,210 @@
+//go:build verif
+
+// Contracts for package factstore, checked by /verif/gocv (comment-only file; no code).
+
+package factstore
+
+// ---- C13: interval tree ---------------------------------------------------------------------------
+
+//@ spec func startOf(i ast.Interval) int64 = GetStartTime(i)
+//@ spec func endOf(i ast.Interval) int64 = GetEndTime(i)
+//@ spec func covers(i ast.Interval, t int64) bool = startOf(i) <= t && t <= endOf(i)
+//@ spec func meets(i ast.Interval, lo int64, hi int64) bool = startOf(i) <= hi && lo <= endOf(i)
+
+//@ func GetStartTime(interval)
+//@   opt inline
+//@   pure
+//@   ensures interval.Start.Type == ast.TimestampBound ==> result == interval.Start.Timestamp
+//@   ensures interval.Start.Type == ast.NegativeInfinityBound ==> result == MinInt64
+//@   ensures interval.Start.Type == ast.PositiveInfinityBound ==> result == MaxInt64
+
+//@ func GetEndTime(interval)
+//@   opt inline
+//@   pure
+//@   ensures interval.End.Type == ast.TimestampBound ==> result == interval.End.Timestamp
+//@   ensures interval.End.Type == ast.PositiveInfinityBound ==> result == MaxInt64
+//@   ensures interval.End.Type == ast.NegativeInfinityBound ==> result == MinInt64
+
+//@ func containsTimestamp(interval, timestamp)
+//@   opt inline
+//@   pure
+//@   ensures result == covers(interval, timestamp)
+
+//@ func maxInt(a, b)
+//@   opt inline
+//@   pure
+//@   ensures result >= a && result >= b && (result == a || result == b)
+
+//@ spec func repr(n *treeNode) set[*treeNode] reads repr(n) = n == nil ? empty() : single(n) + repr(n.left) + repr(n.right)
+//@ spec func elems(n *treeNode) mset[ast.Interval] reads repr(n) = n == nil ? empty() : msingle(n.interval) + elems(n.left) + elems(n.right)
+//@ spec func hiEnd(n *treeNode) int64 reads repr(n) = n == nil ? MinInt64 : max(endOf(n.interval), max(hiEnd(n.left), hiEnd(n.right)))
+//@ spec func loStart(n *treeNode) int64 reads repr(n) = n == nil ? MaxInt64 : min(startOf(n.interval), min(loStart(n.left), loStart(n.right)))
+//@ spec func hiStart(n *treeNode) int64 reads repr(n) = n == nil ? MinInt64 : max(startOf(n.interval), max(hiStart(n.left), hiStart(n.right)))
+// ordered: binary search tree on start times (non-strict on both sides: rotations move equal keys), children disjoint.
+//@ spec func ordered(n *treeNode) bool reads repr(n) = n == nil || (ordered(n.left) && ordered(n.right)
+//@      && !(n in repr(n.left)) && !(n in repr(n.right)) && disjoint(repr(n.left), repr(n.right))
+//@      && hiStart(n.left) <= startOf(n.interval) && startOf(n.interval) <= loStart(n.right))
+// maxOK: the cached maxEnd is an upper bound of every end in the subtree (all that pruning needs). Balance and
+// the height field are deliberately not part of any invariant: they do not affect any answer.
+//@ spec func maxOK(n *treeNode) bool reads repr(n) = n == nil || (maxOK(n.left) && maxOK(n.right) && n.maxEnd >= hiEnd(n))
+//@ spec func heightsOK(n *treeNode) bool reads repr(n) = n == nil || (heightsOK(n.left) && heightsOK(n.right) && n.height >= 1)
+//@ spec func kidsMaxOK(n *treeNode) bool = maxOK(n.left) && maxOK(n.right) && heightsOK(n.left) && heightsOK(n.right)
+//@ spec func valid(n *treeNode) bool = ordered(n) && maxOK(n) && heightsOK(n)
+//@ spec func sameShape(a *treeNode, b *treeNode) bool = true
+
+// Ghost depth: the structure below an ordered node is a finite tree (ordered(n) excludes n from the
+// footprints of its children). Trusted: used only as the induction measure of lemmas and recursive calls.
+//@ spec func depth(n *treeNode) int reads repr(n)
+//@ axiom depthDecreases(n *treeNode): n != nil && ordered(n) ==> depth(n) >= 1 && depth(n.left) >= 0 && depth(n.right) >= 0 && depth(n.left) < depth(n) && depth(n.right) < depth(n)
+// Footprints contain only allocated objects (every reference stored in the heap is nil or allocated).
+//@ axiom reprAllocated(n *treeNode): forall r *treeNode :: r in repr(n) ==> allocated(r)
+
+//@ lemma elemsNonNeg(n *treeNode, i ast.Interval):
+//@   ordered(n) ==> elems(n)[i] >= 0
+//@   decreases depth(n)
+//@   induct elemsNonNeg(n.left, i), elemsNonNeg(n.right, i)
+//@   use depthDecreases(n)
+//@   unfoldat n
+
+//@ lemma elemBounds(n *treeNode, i ast.Interval):
+//@   ordered(n) && elems(n)[i] > 0 ==> endOf(i) <= hiEnd(n) && loStart(n) <= startOf(i) && startOf(i) <= hiStart(n)
+//@   decreases depth(n)
+//@   induct elemBounds(n.left, i), elemBounds(n.right, i)
+//@   use depthDecreases(n)
+//@   unfoldat n
+
+//@ func updateHeight(node)
+//@   opt inline
+//@   nooverflow
+//@   requires node != nil && node.left != node && node.right != node
+//@   modifies node.height
+//@   ensures node.height == 1 + max(height(node.left), height(node.right))
+
+//@ func updateMaxEnd(node)
+//@   opt inline
+//@   requires node != nil
+//@   modifies node.maxEnd
+//@   ensures node.maxEnd >= endOf(node.interval)
+//@   ensures node.left != nil ==> node.maxEnd >= node.left.maxEnd
+//@   ensures node.right != nil ==> node.maxEnd >= node.right.maxEnd
+//@   ensures node.maxEnd == endOf(node.interval) || (node.left != nil && node.maxEnd == node.left.maxEnd) || (node.right != nil && node.maxEnd == node.right.maxEnd)
+
+//@ func (t *IntervalTree) rotateRight(y)
+//@   nooverflow
+//@   unfoldat y, y.left
+//@   unfold old(maxOK(y.left.right)), old(maxOK(y.right)), old(maxOK(y.left.left)), old(heightsOK(y.left.right)), old(heightsOK(y.right)), old(heightsOK(y.left.left))
+//@   requires y != nil && y.left != nil && ordered(y) && kidsMaxOK(y) && kidsMaxOK(y.left)
+//@   modifies y.left, y.height, y.maxEnd, y.left.right, y.left.height, y.left.maxEnd
+//@   ensures result == old(y.left)
+//@   ensures ordered(result)
+//@   ensures maxOK(result) && heightsOK(result)
+//@   ensures elems(result) == old(elems(y)) && repr(result) == old(repr(y))
+//@   ensures hiStart(result) == old(hiStart(y)) && loStart(result) == old(loStart(y)) && hiEnd(result) == old(hiEnd(y))
+
+//@ func (t *IntervalTree) rotateLeft(x)
+//@   nooverflow
+//@   unfoldat x, x.right
+//@   unfold old(maxOK(x.right.left)), old(maxOK(x.left)), old(maxOK(x.right.right)), old(heightsOK(x.right.left)), old(heightsOK(x.left)), old(heightsOK(x.right.right))
+//@   requires x != nil && x.right != nil && ordered(x) && kidsMaxOK(x) && kidsMaxOK(x.right)
+//@   modifies x.right, x.height, x.maxEnd, x.right.left, x.right.height, x.right.maxEnd
+//@   ensures result == old(x.right)
+//@   ensures ordered(result)
+//@   ensures maxOK(result) && heightsOK(result)
+//@   ensures elems(result) == old(elems(x)) && repr(result) == old(repr(x))
+//@   ensures hiStart(result) == old(hiStart(x)) && loStart(result) == old(loStart(x)) && hiEnd(result) == old(hiEnd(x))
+
+//@ func (t *IntervalTree) queryPoint(node, timestamp, fn)
+//@   requires valid(node)
+//@   modifies nothing
+//@   emits i ast.Interval :: covers(i, timestamp) ? elems(node)[i] : 0
+//@   decreases depth(node)
+//@   unfoldat node
+//@   use depthDecreases(node)
+//@   use forall i ast.Interval :: elemBounds(node, i) && elemsNonNeg(node, i)
+//@   use forall i ast.Interval :: elemBounds(node.right, i) && elemsNonNeg(node.right, i)
+
+//@ func (t *IntervalTree) queryRange(node, start, end, fn)
+//@   requires valid(node)
+//@   modifies nothing
+//@   emits i ast.Interval :: meets(i, start, end) ? elems(node)[i] : 0
+//@   decreases depth(node)
+//@   unfoldat node
+//@   use depthDecreases(node)
+//@   use forall i ast.Interval :: elemBounds(node, i) && elemsNonNeg(node, i)
+//@   use forall i ast.Interval :: elemBounds(node.right, i) && elemsNonNeg(node.right, i)
+
+//@ func (t *IntervalTree) inOrder(node, fn)
+//@   requires valid(node)
+//@   modifies nothing
+//@   emits i ast.Interval :: elems(node)[i]
+//@   decreases depth(node)
+//@   unfoldat node
+//@   use depthDecreases(node)
+
+//@ spec func hasEqual(n *treeNode, interval ast.Interval) bool = exists i ast.Interval :: elems(n)[i] > 0 && i.Equals(interval)
+
+//@ func (t *IntervalTree) findExact(node, interval)
+//@   requires valid(node)
+//@   modifies nothing
+//@   ensures result == hasEqual(node, interval)
+//@   decreases depth(node)
+//@   unfoldat node
+//@   use depthDecreases(node)
+//@   use forall i ast.Interval :: elemBounds(node.left, i) && elemsNonNeg(node.left, i)
+//@   use forall i ast.Interval :: elemBounds(node.right, i) && elemsNonNeg(node.right, i)
+
+//@ func (t *IntervalTree) rebalance(node)
+//@   nooverflow
+//@   requires node != nil && ordered(node) && kidsMaxOK(node)
+//@   modifies treeNode.left in repr(node), treeNode.right in repr(node), treeNode.height in repr(node), treeNode.maxEnd in repr(node)
+//@   ensures result != nil && valid(result)
+//@   ensures elems(result) == old(elems(node)) && repr(result) == old(repr(node))
+//@   ensures hiStart(result) == old(hiStart(node)) && loStart(result) == old(loStart(node)) && hiEnd(result) == old(hiEnd(node))
+//@   unfoldat node, node.left, node.right
+
+//@ func (t *IntervalTree) insert(node, interval)
+//@   nooverflow
+//@   requires valid(node)
+//@   modifies treeNode.left in repr(node), treeNode.right in repr(node), treeNode.height in repr(node), treeNode.maxEnd in repr(node)
+//@   ensures result != nil && valid(result)
+//@   ensures elems(result) == old(elems(node)) + msingle(interval)
+//@   ensures forall r *treeNode :: r in repr(result) ==> (r in old(repr(node)) || fresh(r))
+//@   ensures hiStart(result) == max(old(hiStart(node)), startOf(interval)) && loStart(result) == min(old(loStart(node)), startOf(interval))
+//@   decreases depth(node)
+//@   unfoldat node
+//@   use depthDecreases(node)
+//@   use reprAllocated(node)
+
+//@ func (t *IntervalTree) contains(interval)
+//@   requires t != nil && valid(t.root)
+//@   modifies nothing
+//@   ensures result == hasEqual(t.root, interval)
+
+//@ func (t *IntervalTree) Insert(interval)
+//@   nooverflow
+//@   requires t != nil && valid(t.root)
+//@   modifies t.root, t.size, treeNode.left in repr(t.root), treeNode.right in repr(t.root), treeNode.height in repr(t.root), treeNode.maxEnd in repr(t.root)
+//@   ensures valid(t.root)
+//@   ensures result == !old(hasEqual(t.root, interval))
+//@   ensures result ==> elems(t.root) == old(elems(t.root)) + msingle(interval) && t.size == old(t.size) + 1
+//@   ensures !result ==> elems(t.root) == old(elems(t.root)) && t.size == old(t.size)
+
+//@ func (t *IntervalTree) QueryPoint(timestamp, fn)
+//@   requires t != nil && valid(t.root)
+//@   modifies nothing
+//@   emits i ast.Interval :: covers(i, timestamp) ? elems(t.root)[i] : 0
+
+//@ func (t *IntervalTree) QueryRange(start, end, fn)
+//@   requires t != nil && valid(t.root)
+//@   modifies nothing
+//@   emits i ast.Interval :: meets(i, start, end) ? elems(t.root)[i] : 0
+
+//@ func (t *IntervalTree) All(fn)
+//@   requires t != nil && valid(t.root)
+//@   modifies nothing
+//@   emits i ast.Interval :: elems(t.root)[i]
+
+//@ func (t *IntervalTree) Clear()
+//@   requires t != nil
+//@   modifies t.root, t.size
+//@   ensures t.root == nil && t.size == 0 && valid(t.root)
